@@ -71,7 +71,8 @@ fn fact(n: usize) -> usize {
 pub enum BulkSpec {
     Many { n: usize, rounds: bool },
     Iter { count: usize, k: usize, abort: bool, end_pos: usize, rounds: bool },
-    WeakMany { n: usize, recv_pos: usize, rounds: bool },
+    /// pre: 0 fresh receiver; 1 an earlier downgrade, already dropped; 2 an earlier downgrade still alive
+    WeakMany { n: usize, recv_pos: usize, rounds: bool, pre: usize },
 }
 
 pub fn bulk_specs() -> &'static Vec<BulkSpec> {
@@ -91,9 +92,11 @@ pub fn bulk_specs() -> &'static Vec<BulkSpec> {
                     }
                 }
             }
-            for n in 0..=4 {
-                for recv_pos in 0..=n {
-                    v.push(BulkSpec::WeakMany { n, recv_pos, rounds });
+            for pre in 0..3 {
+                for n in 0..=4 {
+                    for recv_pos in 0..=n {
+                        v.push(BulkSpec::WeakMany { n, recv_pos, rounds, pre });
+                    }
                 }
             }
         }
@@ -181,8 +184,18 @@ fn bulk(p: &Params) -> Program {
                     }
                 }
             }
-            BulkSpec::WeakMany { n, recv_pos, rounds } => {
+            BulkSpec::WeakMany { n, recv_pos, rounds, pre } => {
                 let x = c.new_node(1);
+                let earlier = match pre {
+                    0 => None,
+                    1 => {
+                        let w0 = c.downgrade(&x);
+                        c.wdrop(w0);
+                        c.rounds(if rounds { 5 } else { 0 });
+                        None
+                    }
+                    _ => Some(c.downgrade(&x)),
+                };
                 let weaks: Vec<Weak<Node>> = match n {
                     0 => c.weak_many::<0>(&x).into_iter().collect(),
                     1 => c.weak_many::<1>(&x).into_iter().collect(),
@@ -226,6 +239,12 @@ fn bulk(p: &Params) -> Program {
                     c.rounds(if rounds { 6 } else { 0 });
                     c.deref(&x);
                     c.drop_rc(x);
+                }
+                if let Some(w0) = earlier {
+                    c.rounds(6);
+                    let w2 = c.wclone(&w0);
+                    c.wdrop(w2);
+                    c.wdrop(w0);
                 }
             }
         })),
@@ -281,6 +300,8 @@ fn graphs(p: &Params) -> Program {
     let shape_i = p.get("shape", 0);
     let case = p.get("case", 0) as usize;
     let age = p.get("age", 4) as usize;
+    // which `next` edges pop_edges hands to the cascade; the rest is released by AtomicRc::drop
+    let pop = p.get("pop", 3) as u8;
     let (n, edges, backs, handles) = shape(shape_i);
     let h = handles.len();
     let perm = nth_perm(h, case % fact(h));
@@ -295,9 +316,9 @@ fn graphs(p: &Params) -> Program {
             let g = c.pin();
             let nodes: Vec<Rc<Node>> = if shape_i == 5 {
                 let [x] = c.new_many::<1>(3);
-                vec![c.new_node(1), c.new_node(2), x]
+                vec![c.new_node_with(1, None, None, None, pop), c.new_node_with(2, None, None, None, pop), x]
             } else {
-                (0..n).map(|i| c.new_node(i as u32 + 1)).collect()
+                (0..n).map(|i| c.new_node_with(i as u32 + 1, None, None, None, pop)).collect()
             };
             for &(from, slot, to) in edges.iter() {
                 let r = c.clone_rc(&nodes[to]);
@@ -1029,11 +1050,13 @@ pub const LAT_NS: [usize; 52] = [
     2049, 3000, 3072, 4097, 5000,
 ];
 
+pub const LAT_SHAPES: usize = 6;
+
 pub fn latency_bound(n: usize) -> usize {
     16 + 12 * n.div_ceil(1024)
 }
 
-/// shape 0 chain, 1 balanced tree, 2 left comb, 3 right comb.
+/// shape 0 chain, 1 balanced tree, 2 left comb, 3 right comb, 4 right spine, 5 zig-zag.
 /// Returns for node i (0 = root, built last) its children as (slot, child index).
 fn lat_children(shape: i64, n: usize, i: usize) -> Vec<(usize, usize)> {
     match shape {
@@ -1053,6 +1076,22 @@ fn lat_children(shape: i64, n: usize, i: usize) -> Vec<(usize, usize)> {
                 v.push((1, 2 * i + 2));
             }
             v
+        }
+        // right spine: a chain through slot 1 only (slot 0 stays null)
+        4 => {
+            if i + 1 < n {
+                vec![(1, i + 1)]
+            } else {
+                vec![]
+            }
+        }
+        // zig-zag: a chain alternating between slot 0 and slot 1
+        5 => {
+            if i + 1 < n {
+                vec![(i % 2, i + 1)]
+            } else {
+                vec![]
+            }
         }
         // combs: a spine of even indices, each spine node carries one leaf (odd index)
         2 | 3 => {
@@ -1086,7 +1125,7 @@ fn lat_grid(grid: i64) -> (&'static [usize], &'static [usize]) {
 
 pub fn latency_cases(grid: i64) -> i64 {
     let (ns, ages) = lat_grid(grid);
-    (ns.len() * 4 * 16 * ages.len() * 2) as i64
+    (ns.len() * LAT_SHAPES * 16 * ages.len() * 2) as i64
 }
 
 fn latency(p: &Params) -> Program {
@@ -1099,8 +1138,8 @@ fn latency(p: &Params) -> Program {
     k /= ages.len();
     let held_sel = k % 16;
     k /= 16;
-    let shape = (k % 4) as i64;
-    k /= 4;
+    let shape = (k % LAT_SHAPES) as i64;
+    k /= LAT_SHAPES;
     let n = ns[k % ns.len()];
     // held: -1 none, otherwise index of an externally held node
     let held: i64 = match held_sel {
